@@ -317,7 +317,26 @@ func (w *repoWorld) apply(o repoOp) string {
 				time.Sleep(10 * time.Millisecond)
 			}
 		}
-		return fmt.Sprintf("%s spawn=%v %s", status, spawn, w.snapshot0(spawn))
+		snap := w.snapshot0(spawn)
+		if !spawn && status != "notRevoked" {
+			// map order: a closed entry and an open one that lists the certificate -> error or revoked, whichever comes first
+			if es, ok := parseRepoSnapshot(snap); ok {
+				hasClosed, isListed := false, false
+				for loc, e := range es {
+					if e.closed {
+						hasClosed = true
+					} else if e.loaded && e.num >= 0 {
+						if d, known := w.docs[loc][e.num]; known && d.issuer() == o.Issuer && containsInt64(d.Serials, o.Serial) {
+							isListed = true
+						}
+					}
+				}
+				if hasClosed && isListed {
+					status = "revoked|error"
+				}
+			}
+		}
+		return fmt.Sprintf("%s spawn=%v %s", status, spawn, snap)
 	case "tick":
 		chk.VerifUpdateCRLs(true)
 		return w.snapshot()
